@@ -19,7 +19,8 @@ use futures_io::{AsyncRead, AsyncWrite};
 use futures_util::StreamExt;
 use hickory_net::runtime::{DnsTcpStream, DnsUdpSocket, RuntimeProvider, TokioHandle, TokioTime};
 use hickory_net::udp::UdpClientStream;
-use hickory_net::xfer::DnsRequestSender;
+use hickory_net::xfer::{DnsHandle, DnsRequestSender};
+use hickory_net::NetError;
 use hickory_proto::op::{DnsRequest, DnsRequestOptions, Message, Query};
 use hickory_proto::rr::{Name, RecordType};
 use rand::rngs::StdRng;
@@ -358,6 +359,9 @@ pub struct UdpCase {
     pub retry_ms: u64,
     pub edns: bool,
     pub seed: u64,
+    /// go through the public `DnsExchange` handle (background task spawned on the runtime)
+    /// instead of calling `send_message` on the stream directly
+    pub via_exchange: bool,
 }
 
 pub struct UdpOutcome {
@@ -404,19 +408,25 @@ pub async fn run_case(c: UdpCase) -> UdpOutcome {
     let req = make_request(&c);
     sh.lock().unwrap().plan = c.plan;
     let provider = SimProvider { sh: sh.clone(), handle: TokioHandle::default() };
-    let mut stream = UdpClientStream::builder(c.server, provider)
+    let builder = UdpClientStream::builder(c.server, provider)
         .with_timeout(Some(Duration::from_millis(c.timeout_ms)))
         .with_max_retries(c.max_tx)
-        .with_retry_interval_floor(c.retry_ms)
-        .build();
-    let mut rs = stream.send_message(req);
-    let (o, tag, err) = match rs.next().await {
-        Some(Ok(resp)) => ("accept", wire::tag_of(resp.as_buffer()), String::new()),
+        .with_retry_interval_floor(c.retry_ms);
+    let item = if c.via_exchange {
+        let exchange = builder.exchange();
+        let mut rs = exchange.send(req);
+        rs.next().await
+    } else {
+        let mut stream = builder.build();
+        let mut rs = stream.send_message(req);
+        rs.next().await
+    };
+    let (o, tag, err) = match item {
+        Some(Ok(resp)) => ("accept", wire::tag_of_response(&resp), String::new()),
+        Some(Err(NetError::Timeout)) => ("timeout", 0, String::new()),
         Some(Err(e)) => ("error", 0, e.to_string()),
         None => ("timeout", 0, String::new()),
     };
-    drop(rs);
-    drop(stream);
     let mut s = sh.lock().unwrap();
     let ex_counts: Vec<usize> = s.examined.iter().map(|v| v.len()).collect();
     s.events.push(json!({"ev": "done", "o": o, "tag": tag, "err": err, "ex": ex_counts}));
@@ -466,6 +476,7 @@ pub async fn replay_one(ln: usize, c: &Value, trace: &mut dyn io::Write, out: &m
         retry_ms: 400,
         edns: ln % 2 == 0,
         seed: ln as u64,
+        via_exchange: ln % 3 == 2,
     };
     let r = run_case(case).await;
     let ex = r.examined.first().map(|v| v.len()).unwrap_or(0);
@@ -478,7 +489,7 @@ pub async fn replay_one(ln: usize, c: &Value, trace: &mut dyn io::Write, out: &m
     let is_in = |set: &Value| {
         set.as_array().unwrap().iter().any(|a| a["o"] == observed["o"] && a["ex"] == observed["ex"] && a["pos"] == observed["pos"])
     };
-    let ok = is_in(&c["allowed"]) && r.examined.len() <= 1;
+    let ok = is_in(&c["allowed"]);
     let prompt = is_in(&c["prompt"]);
     let acc_kind = if r.o == "accept" && pos >= 1 && pos <= sched.len() { sched[pos - 1].clone() } else { String::new() };
     let class = if ok {
@@ -501,6 +512,86 @@ pub async fn replay_one(ln: usize, c: &Value, trace: &mut dyn io::Write, out: &m
                "class": class, "kind": acc_kind, "err": r.err, "adapter": r.adapter_errors,
                "nontrivial": forgeries_examined >= 1,
                "input": {"cr": cr, "nq": nq, "sched": sched}})
+    )
+    .unwrap();
+}
+
+// ---------------------------------------------------------------------------------------------
+// replay: TLC-generated schedules with one retransmission (Gen_UdpRetx)
+
+pub const RETRY_MS: u64 = 400;
+
+pub async fn replay_retx(ln: usize, c: &Value, trace: &mut dyn io::Write, out: &mut dyn io::Write) {
+    let cr = c["cr"].as_bool().unwrap();
+    let nq = c["nq"].as_u64().unwrap() as usize;
+    let kinds = |f: &str| -> Vec<String> { c[f].as_array().unwrap().iter().map(|k| k.as_str().unwrap().to_string()).collect() };
+    let (s1, s2, s1b) = (kinds("s1"), kinds("s2"), kinds("s1b"));
+    let mut tag = 0u32;
+    let mut mk = |ks: &[String], views: &Value, at_ms: u64| -> Vec<Planned> {
+        ks.iter()
+            .enumerate()
+            .map(|(i, k)| {
+                tag += 1;
+                Planned { at_ms, forge: Forge::of_kind(k).unwrap_or_else(|| panic!("unknown kind {k}")), tag, kind: k.clone(),
+                          claim: Some(views[i].clone()) }
+            })
+            .collect()
+    };
+    // socket 1: s1 at once, s1b after the retransmission; socket 2: s2 as soon as it exists
+    let mut p1 = mk(&s1, &c["v1"], 0);
+    let p2 = mk(&s2, &c["v2"], 0);
+    p1.extend(mk(&s1b, &c["v1b"], RETRY_MS + 100));
+    let case = UdpCase {
+        id: json!(format!("x{ln}")),
+        cr,
+        names: NAMES.iter().take(nq).map(|(n, t)| (n.to_string(), *t)).collect(),
+        server: "192.0.2.53:53".parse().unwrap(),
+        plan: vec![p1, p2],
+        max_tx: 2,
+        timeout_ms: 1000,
+        retry_ms: RETRY_MS,
+        edns: ln % 2 == 0,
+        seed: ln as u64,
+        via_exchange: ln % 3 == 2,
+    };
+    let r = run_case(case).await;
+    let ex: Vec<usize> = (0..2).map(|t| r.examined.get(t).map(|v| v.len()).unwrap_or(0)).collect();
+    let mut acc = json!(null);
+    if r.o == "accept" {
+        acc = json!({"t": 0, "pos": 0});
+        for (t, v) in r.examined.iter().enumerate() {
+            if let Some(p) = v.iter().position(|(tg, _)| *tg == r.tag) {
+                acc = json!({"t": t + 1, "pos": p + 1});
+            }
+        }
+    }
+    let acc_ok = r.o != "accept" || c["acc"].as_array().unwrap().iter().any(|a| a["t"] == acc["t"] && a["pos"] == acc["pos"]);
+    let ex_ok = ex.iter().zip(c["maxex"].as_array().unwrap()).all(|(e, m)| (*e as u64) <= m.as_u64().unwrap());
+    let ok = acc_ok && ex_ok;
+    let acc_kind = if r.o == "accept" {
+        r.examined.iter().flatten().find(|(tg, _)| *tg == r.tag).map(|(_, k)| k.clone()).unwrap_or_default()
+    } else {
+        String::new()
+    };
+    let class = if ok {
+        String::new()
+    } else if !ex_ok {
+        "examined-more-than-three".to_string()
+    } else {
+        format!("accepted:{}", if acc_kind.is_empty() { "unidentified" } else { &acc_kind })
+    };
+    for e in &r.events {
+        writeln!(trace, "{e}").unwrap();
+    }
+    let forgeries_examined = r.examined.iter().flatten().filter(|(_, k)| k != "genuine").count();
+    writeln!(
+        out,
+        "{}",
+        json!({"case": format!("x{ln}"), "ok": ok, "expected": {"acc": c["acc"], "maxex": c["maxex"]},
+               "observed": {"o": r.o, "acc": acc, "ex": ex, "txs": r.examined.len()},
+               "class": class, "kind": acc_kind, "err": r.err, "adapter": r.adapter_errors,
+               "nontrivial": forgeries_examined >= 1 && r.examined.len() == 2,
+               "input": {"cr": cr, "nq": nq, "s1": s1, "s2": s2, "s1b": s1b}})
     )
     .unwrap();
 }
@@ -634,7 +725,9 @@ pub async fn record(seed: u64, n_cases: usize, max_dgrams: usize, trace: &mut dy
             retry_ms,
             edns: rng.random_bool(0.5),
             seed: rng.random(),
+            via_exchange: rng.random_bool(0.4),
         };
+        let via = c.via_exchange;
         let r = run_case(c).await;
         for e in &r.events {
             writeln!(trace, "{e}").unwrap();
@@ -646,7 +739,7 @@ pub async fn record(seed: u64, n_cases: usize, max_dgrams: usize, trace: &mut dy
             json!({"case": id, "events": r.events.len(), "o": r.o, "err": r.err, "adapter": r.adapter_errors,
                    "txs": r.examined.len(), "examined": r.examined.iter().map(|v| v.len()).collect::<Vec<_>>(),
                    "kinds": r.examined.iter().map(|v| v.iter().map(|(_, k)| k.clone()).collect::<Vec<_>>()).collect::<Vec<_>>(),
-                   "planned": nd, "forgeries_examined": forgeries})
+                   "planned": nd, "forgeries_examined": forgeries, "via_exchange": via})
         )
         .unwrap();
     }
